@@ -129,6 +129,42 @@ def repair_model(ck, thorough):
                 raise C.ToolFailure("JlsRepairMC is vacuous: %s is not violated (%s)" % (inv, r2.violated))
 
 
+def ts_repair_model(ck, thorough):
+    """tier B: the model of jls_track_repair_pointers on annotation / UTC tracks (JlsTsRepair.tla on top of
+    JlsTsWriter.tla) on every image of the track writer model's chunk sequence: crash images (last chunk attached
+    or not) and truncations of the closed sequence"""
+    sc = C.scratch()
+    for df, mx in ((2, 12 if thorough else 9), (3, 30 if thorough else 14)) + (((4, 36),) if thorough else ()):
+        cfg = os.path.join(sc, "JlsTsRepairMC_%d.cfg" % df)
+        open(cfg, "w").write("SPECIFICATION Spec\nCONSTANTS\n  Df = %d\n  MaxN = %d\nINVARIANT Inv\nCHECK_DEADLOCK FALSE\n" % (df, mx))
+        r = C.tlc("JlsTsRepairMC", cfg, timeout=1500, heap="4g")
+        if not ck.add_mc("JlsTsRepair decimate factor %d, <= %d entries (every image of the annotation / UTC track writer model: stop after any chunk with the "
+                         "last chunk attached or not, and every truncation of the closed track: after the pointer repair no link leads to a chunk the file "
+                         "does not hold, every linked chunk is still listed, index entries lead to listed chunks)" % (df, mx), r):
+            ck.violation({"where": "model", "config": "JlsTsRepairMC df=%d" % df, "invariant": r.violated, "reason": "JlsTsRepair.tla violates " + str(r.violated)})
+        if df == 2:
+            for inv in ("SomeCut", "SomeHeadCleared", "SomeDescend"):
+                cfg2 = os.path.join(sc, "JlsTsRepairMC_%d_%s.cfg" % (df, inv))
+                open(cfg2, "w").write(open(cfg).read().replace("INVARIANT Inv", "INVARIANT " + inv))
+                r2 = C.tlc("JlsTsRepairMC", cfg2, timeout=600, heap="4g", workers=2)
+                if r2.violated != inv:
+                    raise C.ToolFailure("JlsTsRepairMC is vacuous: %s is not violated (%s)" % (inv, r2.violated))
+
+
+def ts_repair_conformance(ck, trace, prop):
+    nrep = sum(1 for l in open(trace) if l.startswith('{"e":"TsRepSeq"'))
+    if nrep == 0:
+        ck.log("tier-B conformance with JlsTsRepair.tla: no image qualified")
+        return
+    v = C.validate_trace_parallel("JlsTsRepairTrace", "JlsTsRepairTrace.cfg", trace, parts=12, timeout=2400, heap="4g")
+    ck.log("tier-B conformance with JlsTsRepair.tla: %d images (links of an annotation / UTC track before / after the repairing open), %d differ from the model" % (nrep, len(v.rejections)))
+    ck.cov["ts_repair_images_compared"] = nrep
+    if v.rejections:
+        ck.cov["design_conformance"] = "drift"
+        print("MODEL-DRIFT property=%s %d image(s): the repairing open did not leave the links of JlsTsRepair.tla (first: execution %s line %s: %s)"
+              % (prop, len(v.rejections), v.rejections[0][0], v.rejections[0][1], v.rejections[0][2]))
+
+
 def repair_conformance(ck, trace, prop):
     nrep = sum(1 for l in open(trace) if l.startswith('{"e":"RepSeq"'))
     if nrep == 0:
